@@ -11,7 +11,10 @@ import (
 	"sort"
 	"strconv"
 	"strings"
+	"regexp"
+	"runtime"
 	"sync"
+	"sync/atomic"
 	"time"
 )
 
@@ -59,6 +62,9 @@ type Collector struct {
 	start    time.Time
 	deadline time.Time
 	maxViol  int
+
+	progress atomic.Int64 // bumped by every counter update (watchdog)
+	lastKey  atomic.Value // string: key of the case evaluated last
 }
 
 // Env accessors -----------------------------------------------------------
@@ -115,7 +121,7 @@ func New(property string) *Collector {
 		}
 	}
 	now := time.Now()
-	return &Collector{
+	c := &Collector{
 		r: Result{
 			Property: property, Shard: s, Shards: n,
 			Outcomes: map[string]int64{}, Bounds: map[string]any{}, Extra: map[string]int64{},
@@ -125,6 +131,102 @@ func New(property string) *Collector {
 		start:    now,
 		deadline: now.Add(budget),
 		maxViol:  40,
+	}
+	if ReplayFile() == "" {
+		go c.watchdog()
+	}
+	return c
+}
+
+// ticks counts units of work that the collectors' own counters do not see
+// (single executions of a scheduler-driven exploration); see Tick.
+var ticks atomic.Int64
+
+// Tick tells the watchdog that the worker is making progress.
+func Tick() { ticks.Add(1) }
+
+var goroutineHeadRe = regexp.MustCompile(`^goroutine (\d+) \[([a-z ]+)`)
+
+// spinningLibraryGoroutines returns, per goroutine id, the dump of every
+// goroutine that is running or runnable (not blocked) with a frame of the
+// library on its stack.
+func spinningLibraryGoroutines() map[string]string {
+	buf := make([]byte, 8<<20)
+	buf = buf[:runtime.Stack(buf, true)]
+	out := map[string]string{}
+	for _, g := range strings.Split(string(buf), "\n\n") {
+		m := goroutineHeadRe.FindStringSubmatch(g)
+		if m == nil || (m[2] != "running" && m[2] != "runnable") {
+			continue
+		}
+		if !strings.Contains(g, "github.com/bufbuild/connect-go.") {
+			continue
+		}
+		out[m[1]] = g
+	}
+	return out
+}
+
+// watchdog decides the one kind of non-termination that a synctest bubble
+// cannot: a goroutine that never blocks (a loop that makes no progress keeps
+// the bubble from ever becoming quiescent, so the explorer itself stands
+// still).  It runs outside every bubble, on the wall clock, and is not an
+// oracle by elapsed time alone: when no counter of the collector has moved for
+// a long time (90 s quick, 10 min thorough; a case normally takes milli-
+// seconds), it takes three goroutine dumps 3 s apart and reports clause
+// "terminates", outcome "livelock" only if one and the same goroutine is
+// running or runnable, inside the library, in all three.  Otherwise the run is
+// marked non-exhaustive.  Either way the shard result is written and the
+// worker ends.
+func (c *Collector) watchdog() {
+	stall := 90 * time.Second
+	if Thorough() {
+		stall = 10 * time.Minute
+	}
+	if v, err := strconv.Atoi(os.Getenv("VERIF_STALL_S")); err == nil && v > 0 {
+		stall = time.Duration(v) * time.Second
+	}
+	progress := func() int64 { return c.progress.Load() + ticks.Load() }
+	last, since := progress(), time.Now()
+	for {
+		time.Sleep(5 * time.Second)
+		if p := progress(); p != last {
+			last, since = p, time.Now()
+			continue
+		}
+		if time.Since(since) < stall {
+			continue
+		}
+		a := spinningLibraryGoroutines()
+		time.Sleep(3 * time.Second)
+		b := spinningLibraryGoroutines()
+		time.Sleep(3 * time.Second)
+		d := spinningLibraryGoroutines()
+		if progress() != last {
+			last, since = progress(), time.Now()
+			continue
+		}
+		key, _ := c.lastKey.Load().(string)
+		spinning := ""
+		for id, dump := range d {
+			if _, ok := a[id]; ok {
+				if _, ok := b[id]; ok {
+					spinning = dump
+					break
+				}
+			}
+		}
+		if spinning != "" {
+			c.NotExhaustive(fmt.Sprintf("the worker stopped at a livelock in case %q", key))
+			c.Violation("Test"+c.r.Property, "terminates", "livelock", []string{"watchdog"}, map[string]string{"last_case_key": key},
+				"no progress for %v; in case %q a goroutine has been running inside the library, without ever blocking, through three dumps taken 3 s apart:\n%s", stall, key, spinning)
+			fmt.Printf("worker: livelock in %s; exiting after recording it\n", key)
+		} else {
+			c.NotExhaustive(fmt.Sprintf("no progress for %v in case %q and no goroutine spinning inside the library: stopped", stall, key))
+			fmt.Printf("worker: stalled in %s; exiting as non-exhaustive\n", key)
+		}
+		_ = c.Finish()
+		os.Exit(0)
 	}
 }
 
@@ -155,16 +257,18 @@ func (c *Collector) NotExhaustive(why string) {
 	c.r.Notes["not_exhaustive"] = why
 	c.mu.Unlock()
 }
-func (c *Collector) AddStates(n int64)          { c.mu.Lock(); c.r.States += n; c.mu.Unlock() }
-func (c *Collector) AddTransitions(n int64)     { c.mu.Lock(); c.r.Transitions += n; c.mu.Unlock() }
+func (c *Collector) AddStates(n int64)          { c.progress.Add(1); c.mu.Lock(); c.r.States += n; c.mu.Unlock() }
+func (c *Collector) AddTransitions(n int64)     { c.progress.Add(1); c.mu.Lock(); c.r.Transitions += n; c.mu.Unlock() }
 func (c *Collector) AddTraces(n int64)          { c.mu.Lock(); c.r.Traces += n; c.mu.Unlock() }
 func (c *Collector) AddExtra(k string, n int64) { c.mu.Lock(); c.r.Extra[k] += n; c.mu.Unlock() }
 func (c *Collector) AddDistinct(n int64)        { c.mu.Lock(); c.r.DistinctCount += n; c.mu.Unlock() }
-func (c *Collector) AddEvaluations(n int64)     { c.mu.Lock(); c.r.Evaluations += n; c.mu.Unlock() }
+func (c *Collector) AddEvaluations(n int64)     { c.progress.Add(1); c.mu.Lock(); c.r.Evaluations += n; c.mu.Unlock() }
 
 // Case counts one evaluated case; key identifies it canonically; nontrivial
 // says whether it counts towards distinct_nontrivial.
 func (c *Collector) Case(key string, nontrivial bool) {
+	c.progress.Add(1)
+	c.lastKey.Store(key)
 	c.mu.Lock()
 	c.r.Evaluations++
 	if nontrivial {
@@ -174,6 +278,7 @@ func (c *Collector) Case(key string, nontrivial bool) {
 }
 
 func (c *Collector) Outcome(class string) {
+	c.progress.Add(1)
 	c.mu.Lock()
 	c.r.Outcomes[class]++
 	c.mu.Unlock()
